@@ -148,6 +148,14 @@ static void one_opcode(int opcode, int dst) {
     static int p[3]; p[0] = 1; p[1] = opcode; p[2] = dst | (av << 2); e1_manual_path(&pseudo, p, 3);
     if (opcode == 0x00) { set_addresses(0); return; }
     int ev = derive_session_event(buf, T, OWN);
+    /* the length-aware entry point with every received length a complete frame of this opcode can have (32 bytes unpadded,
+     * a few more, Ethernet's minimum 60, a full buffer): the classification must not depend on padding */
+    { static const size_t LENS[6] = {32, 33, 35, 36, 60, 1500};
+      for (int li = 0; li < 6; li++) {
+          if (opcode == 0x01 && LENS[li] < 46) continue;      /* a Hello is complete only with its 14-byte upper header */
+          int evl = derive_session_event_len(buf, LENS[li], T, OWN); evals++;
+          if (evl != ev) { set_addresses(0); vf_violation("classify:depends-on-padding", "opcode 0x%02x received with %zu bytes: derive_session_event_len -> %s, with the whole buffer -> %s", opcode, LENS[li], evname(evl), evname(ev)); set_addresses(av); }
+      } }
     set_addresses(0);
     evals++;
     int exp = opcode == 0x08 ? (dst == 0 ? sess_topo_reset : sess_reset) : opcode == 0x01 ? sess_hello : -1;
